@@ -87,8 +87,9 @@ Fixpoint pat_vars {V} (paren : bool) (p : pat V) : list V :=
 (* the variables the Rust pattern really binds *)
 Definition pat_binds {V} (p : pat V) : list V := pat_vars true p.
 
-(* THE LINE TO FLIP when pattern_get_vars gets its Pat::Paren arm (value for the code under verification: false) *)
-Definition pattern_get_vars_traverses_paren : bool := false.
+(* whether pattern_get_vars has an arm for Pat::Paren: true since the repair d5a5c02 in /repo (false before it: a variable
+   bound through a parenthesised pattern was invisible to the shadowing check and to grounding) *)
+Definition pattern_get_vars_traverses_paren : bool := true.
 
 (* pattern_get_vars of the code under verification *)
 Definition get_vars {V} (p : pat V) : list V := pat_vars pattern_get_vars_traverses_paren p.
